@@ -42,7 +42,19 @@ def run(tier, seed):
     res = tlc.run("MC_C16", cfg="MC_C16_T" if thorough else "MC_C16", timeout=3000, heap="8g", want=())
     ev.tlc("MC_C16", res, "contingency table transposes; pair-counting P/R exchange; Rand/ARI symmetric")
 
+    res = tlc.run("MC_C04_pattern", cfg="MC_C04_pattern", timeout=3000, heap="8g")
+    ev.tlc("MC_C04_pattern", res, "invariant SwapSym on the establishment / occurrence / three-layer definitions")
+    prow = res["rows"]["ROW"]
     log = RelLog()
+    # every pair of pattern annotations of the model (one pattern relevant to several on the other side, unequal sizes)
+    for k, r in enumerate(prow):
+        if (k + seed) % (2 if thorough else 6) or not r["ref"] or not r["est"]:
+            continue
+        A = [[[(float(o) * 0.5, float(m)) for o, m in occ] for occ in p] for p in r["ref"]]
+        Bq = [[[(float(o) * 0.5, float(m)) for o, m in occ] for occ in p] for p in r["est"]]
+        for name, kw in (("establishment_FPR", {}), ("occurrence_FPR", {"thres": 0.5}), ("occurrence_FPR", {}), ("three_layer_FPR", {})):
+            fn = getattr(me.pattern, name)
+            log.add("swap", "pattern." + name, call(fn, A, Bq, **kw), call(fn, Bq, A, **kw), {"ref": A, "est": Bq, "kw": kw, "source": "MC_C04_pattern"})
     n = 400 if thorough else 80
     s, h, p, tr, mp, c = me.segment, me.hierarchy, me.pattern, me.transcription, me.multipitch, me.chord
     for it in range(n):
